@@ -11,6 +11,16 @@ from .. import common
 from ..common import mk_case, norm
 
 
+HOST_CLASSES_PRELUDE = """
+#[constructor(mk__)] class HAnimal { fn speak(self) { return "..."; } fn legs(self) { return 4; } fn kind(self) { return "animal"; } }
+#[derive(HAnimal), constructor(mk__)] class HBird { fn speak(self) { return "tweet"; } fn legs(self) { return 2; } }
+#[derive(HBird), constructor(mk__)] class HParrot { fn speak(self) { return "hello"; } }
+var hgeneric = HAnimal.mk__();
+var htweety = HBird.mk__();
+var hpolly = HParrot.mk__();
+"""
+
+
 def _model_worker(batch):
     sys.setrecursionlimit(20000)
     from ..model.interp import Interp
@@ -22,6 +32,14 @@ def _model_worker(batch):
                         host_natives=bool(prog.get("natives")))
             for name, value in prog.get("globals_f") or []:
                 ip.main.attrs[name] = value
+            if prog.get("hostclasses"):
+                # the hierarchy the runner declares through the host API (harness/src/main.rs, define_host_classes)
+                ip.out = []
+                r0 = ip.interpret(HOST_CLASSES_PRELUDE)
+                if r0[0] != "ok":
+                    raise RuntimeError("host class prelude failed in the model: %r" % (r0,))
+                for k in ("mk__a", "mk__b", "mk__p"):
+                    ip.main.attrs.pop(k, None)
             view = []
             kept = []
             for step in prog["steps"]:
@@ -170,6 +188,8 @@ def check_programs(ck, progs, cfg="hook", opts=None, timeout=None, sig_prefix="M
         o = dict(opts or {"gc": "always", "quarantine": 1})
         if p.get("natives"):
             o["natives"] = 1
+        if p.get("hostclasses"):
+            o["hostclasses"] = 1
         cases.append(mk_case("m%d" % i, [tuple(s) for s in p["steps"]], o, p.get("mods"), p.get("globals")))
         keep.append((p, m))
     tmo = timeout or common.batch_timeout(ck.tier, len(cases) / 8)
